@@ -210,6 +210,13 @@ def literal_cases(tier, rng):
         s = v - 0x10000 if v >= 0x8000 else v
         yield "&H%X" % v, "I:%d" % s
         yield "&O%o" % v, "I:%d" % s
+        if v % 5 == 0:
+            # leading zeros of every length: the value and its narrowest type do not change
+            z = "0" * (1 + (v // 5) % 24)
+            yield z + str(v), expected_int(v)
+            yield "-" + z + str(v), expected_int(-v)
+            yield "&H" + z + "%X" % v, "I:%d" % s
+            yield "&O" + z + "%o" % v, "I:%d" % s
         if v % 7 == 0:
             yield "&h%x" % v, "I:%d" % s
             yield "&H%06X" % v, "I:%d" % s
@@ -222,6 +229,9 @@ def literal_cases(tier, rng):
         v = bound[i] if i < len(bound) else rng.randrange(0, 1 << 32)
         yield str(v), expected_int(v)
         yield "-" + str(v), expected_int(-v)
+        if i % 3 == 0:
+            z = "0" * (1 + i % 20)
+            yield z + str(v), expected_int(v)
         if v < (1 << 32):
             if v <= 0xFFFF:
                 s = v - 0x10000 if v >= 0x8000 else v
